@@ -22,6 +22,7 @@ def main(run: Run):
     run_configs(run, __name__, cfgs, must_accept=_mux.must_accept)
     from . import shadow_l1
     shadow_l1.add_to(run)
+    shadow_l1.add_population(run)
     from . import mux_l1
     mux_l1.add_to(run, "read")
     from . import ctor_l1
